@@ -57,7 +57,9 @@ def to_netlist(net):
         e = b.element
         if isinstance(e, elm.NortenElement):
             z, v = complex(e.Z), complex(e.V)
-            if z == 0 and v == 0:
+            if z.real == float("inf") or z.real == float("-inf"):
+                k, p = "open", []
+            elif z == 0 and v == 0:
                 k, p = "short", []
             elif z == 0:
                 k, p = "V", [_num(v)]
@@ -79,3 +81,56 @@ def to_netlist(net):
             raise TypeError(type(e))
         out.append([b.node1, b.node2, k, b.id, p])
     return {"ref": net.node_zero_label, "branches": out}
+
+
+def component(c):
+    """reference component description -> library Component"""
+    from CircuitCalculator.Circuit import components as ccp
+    from .ref import circuit as rc
+    kind, cid, nodes, p = c
+    fl = rc.fl
+    nodes = tuple(nodes)
+    if kind == "ground":
+        return ccp.ground(id=cid, nodes=nodes)
+    if kind == "resistor":
+        return ccp.resistor(cid, nodes, R=float("inf") if p["R"] == "inf" else fl(p["R"]))
+    if kind == "conductance":
+        return ccp.conductance(cid, nodes, G=fl(p["G"]))
+    if kind == "impedance":
+        return ccp.impedance(cid, nodes, Z=complex(fl(p["Z"][0]), fl(p["Z"][1])))
+    if kind == "admittance":
+        return ccp.admittance(cid, nodes, Y=complex(fl(p["Y"][0]), fl(p["Y"][1])))
+    if kind == "capacitor":
+        return ccp.capacitor(cid, nodes, C=fl(p["C"]))
+    if kind == "inductance":
+        return ccp.inductance(cid, nodes, L=fl(p["L"]))
+    if kind == "lamp":
+        return ccp.lamp(cid, nodes, P=fl(p["P"]), V_ref=fl(p["V_ref"]))
+    if kind == "resistive_load":
+        return ccp.resistive_load(cid, nodes, P=fl(p["P"]), V_ref=fl(p["V_ref"]))
+    if kind == "short_circuit":
+        return ccp.short_circuit(cid, nodes)
+    if kind == "dc_voltage_source":
+        return ccp.dc_voltage_source(cid, nodes, V=fl(p["V"]), R=fl(p.get("R", 0)))
+    if kind == "ac_voltage_source":
+        return ccp.ac_voltage_source(cid, nodes, V=fl(p["V"]), R=fl(p.get("R", 0)), w=fl(p.get("w", 0)), phi=rc.phase_float(p.get("phi", "0")))
+    if kind == "complex_voltage_source":
+        z = p.get("Z", [0, 0])
+        return ccp.complex_voltage_source(cid, nodes, V=complex(fl(p["V"][0]), fl(p["V"][1])), Z=complex(fl(z[0]), fl(z[1])))
+    if kind == "periodic_voltage_source":
+        return ccp.periodic_voltage_source(cid, nodes, wavetype=p["wavetype"], V=fl(p["V"]), w=fl(p["w"]), phi=rc.phase_float(p.get("phi", "0")), R=fl(p.get("R", 0)))
+    if kind == "dc_current_source":
+        return ccp.dc_current_source(cid, nodes, I=fl(p["I"]), G=fl(p.get("G", 0)))
+    if kind == "ac_current_source":
+        return ccp.ac_current_source(cid, nodes, I=fl(p["I"]), G=fl(p.get("G", 0)), w=fl(p.get("w", 0)), phi=rc.phase_float(p.get("phi", "0")))
+    if kind == "complex_current_source":
+        y = p.get("Y", [0, 0])
+        return ccp.complex_current_source(cid, nodes, I=complex(fl(p["I"][0]), fl(p["I"][1])), Y=complex(fl(y[0]), fl(y[1])))
+    if kind == "periodic_current_source":
+        return ccp.periodic_current_source(cid, nodes, wavetype=p["wavetype"], I=fl(p["I"]), w=fl(p["w"]), phi=rc.phase_float(p.get("phi", "0")), G=fl(p.get("G", 0)))
+    raise ValueError(kind)
+
+
+def circuit(desc):
+    from CircuitCalculator.Circuit.circuit import Circuit
+    return Circuit([component(c) for c in desc["components"]])
